@@ -9,14 +9,14 @@
 (* All numbers fit TLC's 32-bit integers: a 16-bit halfword is an Int, an    *)
 (* A32 word is a pair of halfwords, a 32-bit immediate is kept in its signed *)
 (* two's-complement reading (0xFF000000 is -16777216).                       *)
-EXTENDS Integers, Sequences, FiniteSets, TLC
+EXTENDS Integers, Sequences, FiniteSets, TLC, Words
 
-P2(n) == 2 ^ n                                        \* n <= 30
+\* (P2(n) = 2^n, n <= 30, and the byte-limb words of the execution model come from Words.tla)
 Bits(x, lo, n) == (x \div P2(lo)) % P2(n)             \* field x<lo+n-1:lo>
-Bit(x, k) == (x \div P2(k)) % 2
+IBit(x, k) == (x \div P2(k)) % 2                      \* bit k of an integer (Words.Bit: of a word)
 SignExt(v, n) == IF v >= P2(n - 1) THEN v - P2(n) ELSE v     \* n-bit pattern -> signed value (n <= 30)
 Pattern(v, n) == IF v < 0 THEN v + P2(n) ELSE v              \* signed value -> n-bit pattern
-Xor(a, b) == IF a = b THEN 0 ELSE 1
+XorBit(a, b) == IF a = b THEN 0 ELSE 1
 Align4(a) == a - (a % 4)
 MinInt == -2147483647 - 1
 
@@ -56,7 +56,7 @@ CondNames == <<"eq", "ne", "cs", "cc", "mi", "pl", "vs", "vc", "hi", "ls", "ge",
 \* <<suffix, condition number>> incl. the synonyms hs = cs, lo = cc and the explicit "al"
 CondSuffixes == {<<CondNames[k], k - 1>> : k \in 1..15} \cup {<<"hs", 2>>, <<"lo", 3>>, <<"al", 14>>}
 
-RegSet(bits, n) == {r \in 0..(n - 1) : Bit(bits, r) = 1}
+RegSet(bits, n) == {r \in 0..(n - 1) : IBit(bits, r) = 1}
 RECURSIVE SetBits(_)
 SetBits(S) == IF S = {} THEN 0 ELSE LET r == CHOOSE x \in S : TRUE IN P2(r) + SetBits(S \ {r})
 
@@ -74,6 +74,7 @@ Reads(i) ==
     ({i.rn, i.rm, i.ra, i.rs}
      \cup (IF i.mn \in Stores \cup {"mcr"} THEN {i.rd} ELSE {})
      \cup (IF i.mn = "strd" THEN {i.rd + 1} ELSE {})
+     \cup (IF i.mn = "movt" THEN {i.rd} ELSE {})                   \* movt keeps the lower halfword of Rd
      \cup (IF i.mn \in {"push", "stm"} THEN i.list ELSE {})) \ {NoReg}
 Writes(i) ==
     ((IF i.mn \notin NoDest THEN {i.rd} ELSE {})
